@@ -173,7 +173,7 @@ def stepMain (cfg : Cfg) (e : Env) (s : Sub) : Sub :=
       { s with pc := .tryRecv, last := r.2, base := some n, out := s.out ++ r.1 }
   | .readEoq pin => { s with pc := .tryRecv, last := pin, base := some pin, out := s.out ++ [.eoq pin] }
   | .tryRecv =>
-    let s := { s with minId := s.last + 1 }
+    let s := { s with minId := s.last + 1, pending := none }
     if s.qHead < s.qTail then
       { s with pending := some s.qHead, target := some s.qHead, qHead := s.qHead + 1, pc := .loop 0 }
     else if s.qt = .failed ∨ s.qt = .stopped then
